@@ -100,6 +100,10 @@ def text_corpus2(rng, n):
             eras.append(f'k{i}: {val}')
         out.append(('{' + ', '.join(ents) + '}', '{' + ', '.join(eras) + '}'))
         out.append(('\n'.join(ents) + '\n', '\n'.join(eras) + '\n'))
+        # metadata literals that contain braces themselves: nested mappings, a string holding '}' / '}}', a set display
+        lit = rng.choice(["'a': {'b': 1}, 'c': 2", "'s': '}', 't': 3", "'s': 'x}}y', 'n': {'m': {'k': 0}}", "'l': [1, {'u': 2}], 'z': '{{'", "'q': {1, 2}"])
+        out.append((f"{{k: !metadata{{{{{lit}}}}} 5, j: !metadata{{{{'w': {{'v': 1}}}}}} [1], i: 2}}", '{k: 5, j: [1], i: 2}'))
+        out.append((f"k: !metadata{{{{{lit}}}}} 5\nj: 6\n", 'k: 5\nj: 6\n'))
         # keys that are also attribute names of the node / builder classes (the loader accepts them); float keys holding containers
         names = rng.sample(['stages', 'builder', 'value', 'source', 'merge', 'node_info', 'children', 'name', 'path', 'default', 'delete', 'priority', 'safe', 'metadata', 'idx', 'tag'], 3)
         vals = ['[{name: build, jobs: 4}, {name: test, jobs: 2}]', '{a: 1, b: [2]}', '3', '[1, 2]', '{name: x}']
